@@ -41,6 +41,7 @@ type Contract struct {
 	Results  []string
 	Requires []*Expr
 	Ensures  []*Expr
+	Names    []*Expr // definitional clauses: assumed at call sites, never checked (they name the verdict of a deterministic operation)
 	Assigns  []*Expr
 	HasAssigns bool
 	LoopInv  map[int][]*Expr
@@ -61,7 +62,16 @@ type Lemma struct {
 	Body *Expr
 }
 
+type TypeInv struct {
+	TypeName string
+	Var      string
+	Body     *Expr
+	Pkg      string
+}
+
 type ContractSet struct {
+	invs   map[string][]*TypeInv // type name (pkg.Name) -> invariants
+	nonnil map[string]bool        // "pkg::type text" -> elements of this type in pre-existing containers are non-nil
 	funcs  map[string]*Contract
 	ifaces map[string]*Contract
 	specs  map[string]*specFn
@@ -70,10 +80,10 @@ type ContractSet struct {
 }
 
 var clauseKeywords = map[string]bool{"func": true, "interface": true, "spec": true, "abstract": true, "requires": true, "ensures": true,
-	"assigns": true, "loop": true, "decreases": true, "arith": true, "pure": true, "lemma": true, "trusted": true, "noframe": true}
+	"assigns": true, "loop": true, "decreases": true, "arith": true, "pure": true, "lemma": true, "trusted": true, "noframe": true, "invariant": true, "nonnil": true, "names": true}
 
 func loadContracts(files []string) (*ContractSet, error) {
-	cs := &ContractSet{funcs: map[string]*Contract{}, ifaces: map[string]*Contract{}, specs: map[string]*specFn{}}
+	cs := &ContractSet{funcs: map[string]*Contract{}, ifaces: map[string]*Contract{}, specs: map[string]*specFn{}, invs: map[string][]*TypeInv{}, nonnil: map[string]bool{}}
 	for _, f := range files {
 		if err := cs.loadFile(f); err != nil {
 			return nil, err
@@ -151,6 +161,22 @@ func (cs *ContractSet) loadFile(path string) error {
 			sf.pkg = pkg
 			cs.specs[sf.name] = sf
 			cur = nil
+		case "invariant":
+			// invariant T(x): expr
+			lp, rp, col := strings.Index(rest, "("), strings.Index(rest, ")"), strings.Index(rest, ":")
+			if lp < 0 || rp < lp || col < rp {
+				return fail(fmt.Errorf("expected: invariant T(x): expr"))
+			}
+			ex, err := parseExpr(rest[col+1:])
+			if err != nil {
+				return fail(err)
+			}
+			ti := &TypeInv{TypeName: strings.TrimSpace(rest[:lp]), Var: strings.TrimSpace(rest[lp+1 : rp]), Body: ex, Pkg: pkg}
+			cs.invs[pkg+"."+ti.TypeName] = append(cs.invs[pkg+"."+ti.TypeName], ti)
+			cur = nil
+		case "nonnil":
+			cs.nonnil[pkg+"::"+strings.TrimSpace(rest)] = true
+			cur = nil
 		case "lemma":
 			lm, err := parseLemma(rest)
 			if err != nil {
@@ -159,7 +185,7 @@ func (cs *ContractSet) loadFile(path string) error {
 			lm.Pkg = pkg
 			cs.lemmas = append(cs.lemmas, lm)
 			cur = nil
-		case "requires", "ensures", "decreases":
+		case "requires", "ensures", "decreases", "names":
 			if cur == nil {
 				return fail(fmt.Errorf("clause outside a contract"))
 			}
@@ -172,6 +198,8 @@ func (cs *ContractSet) loadFile(path string) error {
 				cur.Requires = append(cur.Requires, e)
 			case "ensures":
 				cur.Ensures = append(cur.Ensures, e)
+			case "names":
+				cur.Names = append(cur.Names, e)
 			default:
 				cur.Decreases = append(cur.Decreases, e)
 			}
